@@ -16,14 +16,14 @@ def g(fam, **kw):
     return ['%s:%s:%d' % (fam, name, n) for name, n in kw.items()]
 
 
-V1_QUICK = g('stream', v1good=150, v1corrupt=120, v1struct=120, v1mutate=200, v1trunc=10, v1len=25, v1max=75, v1adj=96, v1lenient=1, v1words=170, v1unicode=156, v1extra=340, v1junk=80, v1cr=60, bytes=40)
-V1_THOROUGH = g('stream', v1good=4000, v1corrupt=4000, v1struct=3000, v1mutate=8000, v1trunc=300, v1len=400, v1max=700, v1adj=6144, v1lenient=1, v1words=170, v1unicode=156, v1extra=340, v1junk=2500, v1cr=1500, bytes=1000)
+V1_QUICK = g('stream', v1good=150, v1corrupt=120, v1struct=120, v1mutate=200, v1trunc=10, v1len=25, v1max=75, v1adj=96, v1lenient=1, v1words=170, v1unicode=156, v1extra=340, v1prefix=66, v1junk=80, v1cr=60, bytes=40)
+V1_THOROUGH = g('stream', v1good=4000, v1corrupt=4000, v1struct=3000, v1mutate=8000, v1trunc=300, v1len=400, v1max=700, v1adj=6144, v1lenient=1, v1words=170, v1unicode=156, v1extra=340, v1prefix=66, v1junk=2500, v1cr=1500, bytes=1000)
 V2_QUICK = g('stream', v2good=120, v2corrupt=150, v2mutate=250, bparse=150, v2ctrl=700, v2len=330, v2sig=60, v2sigmulti=150, v2halves=75, reuse=24, mixed=80, bytes=40, huge=4)
 V2_THOROUGH = g('stream', v2good=3000, v2corrupt=4000, v2mutate=8000, bparse=4000, v2ctrl=65536, v2len=2500, v2sig=3060, v2sigmulti=800, v2halves=300, reuse=400, mixed=2000, bytes=1000, huge=60)
 IPTEXT_QUICK = g('iptext', iprand=400)
 IPTEXT_THOROUGH = g('iptext', iprand=20000)
-TLV_QUICK = g('tlv', tlvrand=150, tlvtrunc=150, tlvbig=10, tlvmany=6, tlvprog=60, tlvhuge=6, tlvssl=64)
-TLV_THOROUGH = g('tlv', tlvrand=6000, tlvtrunc=6000, tlvbig=56, tlvmany=100, tlvprog=3000, tlvhuge=40, tlvssl=2048)
+TLV_QUICK = g('tlv', tlvrand=150, tlvtrunc=150, tlvbig=10, tlvmany=6, tlvprog=60, tlvhuge=6, tlvssl=64, tlvreal=160)
+TLV_THOROUGH = g('tlv', tlvrand=6000, tlvtrunc=6000, tlvbig=56, tlvmany=100, tlvprog=3000, tlvhuge=40, tlvssl=2048, tlvreal=480)
 BUILDER_QUICK = g('builder', bseq=120, bsetlen=120, btotal=10, bpairs=40, bover=18, bbatch=15, bcustom=60)
 BUILDER_THOROUGH = g('builder', bseq=5000, bsetlen=5000, btotal=200, bpairs=1500, bover=360, bbatch=210, bcustom=1200)
 
@@ -91,8 +91,8 @@ PROPS = {
              'non-trivial = a call into the crate on a non-empty input; distinct = distinct inputs',
     ),
     'C04': dict(
-        gens=dict(quick=g('stream', v1good=200, v1struct=60, v1len=40, v1max=75, v2good=150, v2len=40, mixed=80, bigtrail=6, huge=6, pipe=60),
-                  thorough=g('stream', v1good=5000, v1struct=2000, v1len=600, v1max=700, v2good=4000, v2len=2000, mixed=2500, bigtrail=60, huge=80, pipe=2000)),
+        gens=dict(quick=g('stream', v1good=200, v1struct=60, v1len=40, v1max=75, v2good=150, v2len=40, mixed=80, bigtrail=6, huge=6, pipe=60, v1prefix=66),
+                  thorough=g('stream', v1good=5000, v1struct=2000, v1len=600, v1max=700, v2good=4000, v2len=2000, mixed=2500, bigtrail=60, huge=80, pipe=2000, v1prefix=66)),
         models=[MC_V1, MC_V2, MC_MIXED, MC_PIPE],
         rule='stream sessions whose header is followed by trailers (application bytes, another header, CR/LF/NUL, a '
              'digit, a TLV); non-trivial = an event after the first accept in the session, or the re-parse of the '
